@@ -614,6 +614,67 @@ func (ev *Evaluator) unroll(s ast.Stmt) (*Unrolled, []iteration, *ast.BlockStmt)
 				}
 			}
 		}
+		// maps.Keys(T) / maps.Values(T) / maps.All(T) ranged directly, or collected
+		// into a slice first: the rows of T in map order (whether that order can
+		// reach the result is decided separately, like for a range over T itself)
+		{
+			seq, collected := sx, false
+			if call, ok := sx.(*ast.CallExpr); ok && len(call.Args) == 1 {
+				fun := call.Fun
+				if ix, ok := ast.Unparen(fun).(*ast.IndexExpr); ok {
+					fun = ix.X
+				}
+				if IsPkgFunc(StaticCallee(sinfo, &ast.CallExpr{Fun: fun}), "slices", "Collect") {
+					seq, collected = ast.Unparen(call.Args[0]), true
+				}
+			}
+			if m := mapOperand(sinfo, seq); m != nil {
+				inner := seq.(*ast.CallExpr)
+				fun := inner.Fun
+				if ix, ok := ast.Unparen(fun).(*ast.IndexExpr); ok {
+					fun = ix.X
+				}
+				which := StaticCallee(sinfo, &ast.CallExpr{Fun: fun}).Name()
+				ct, why := ev.with(sinfo).Table(m)
+				if why != "" || ct.Kind != "map" {
+					u.Why = "the iterated keys are not those of a constant map: " + why
+					return u, nil, s.Body
+				}
+				ev.noteTable(holder)
+				u.Table, u.Kind, u.N = ct, "map", len(ct.Rows)
+				var its []iteration
+				for _, row := range ct.Rows {
+					it := iteration{env: map[types.Object]Sym{}, bind: map[types.Object]Val{}, label: row.Label}
+					first := keyObj // the variable that receives the element of the sequence
+					if collected {
+						first = valObj // (keyObj is the position in the slice: uninterpreted)
+					}
+					switch which {
+					case "Keys":
+						if first != nil {
+							it.bind[first] = *row.Key
+						}
+					case "Values":
+						if first != nil {
+							it.bind[first] = row.Elem
+						}
+					case "All":
+						if collected {
+							u.Why = "maps.All collected into a slice"
+							return u, nil, s.Body
+						}
+						if keyObj != nil {
+							it.bind[keyObj] = *row.Key
+						}
+						if valObj != nil {
+							it.bind[valObj] = row.Elem
+						}
+					}
+					its = append(its, it)
+				}
+				return u, its, s.Body
+			}
+		}
 		// what another decomposer of the same word reports (a slice it returns, an
 		// iterator it yields to): one iteration per bit test of that function
 		if its, handled := ev.producerLoop(u, s.X, keyObj, valObj); handled {
